@@ -39,6 +39,10 @@ pub struct Stmt {
     /// reported (bounded liveness: "never hangs on terminating input")
     #[serde(default)]
     pub must_terminate: bool,
+    /// the statement (or a closure it may call) can write closure-local variables: after a
+    /// cancellation the session is checked once more and then abandoned
+    #[serde(default)]
+    pub hidden_state: bool,
 }
 
 #[derive(Clone, Debug, Serialize, Deserialize, PartialEq, Default)]
@@ -576,6 +580,63 @@ fn execute_inner(
             return RunEnd::Inconclusive("implementation ran out of fuel".into());
         }
 
+        if cancel_fired || impl_out == Outcome::Cancelled {
+            // F7: the evaluation was cancelled at an internal step the model cannot know (the error
+            // may also have been caught inside the statement). The model does not run the
+            // statement; the variables it may write and the output are adopted from the
+            // implementation, every other variable must be unchanged, and the session goes on.
+            stats.cancelled += 1;
+            sess.model.probe("cancellation_fired");
+            {
+                let w = sess.writer.0.lock().unwrap();
+                sess.model.out = w.accepted.clone();
+                sess.model.out_budget = w.budget;
+            }
+            let names = sess.model.struct_names();
+            for name in st.write_set.iter() {
+                match Env::try_borrow_get_var(&sess.env, name) {
+                    Ok(o) => match obs::obj_to_v(&o, &names) {
+                        Some(v) => sess.model.adopt_or_declare(name, v),
+                        None => {
+                            // functions and streams cannot be adopted: only acceptable when the
+                            // model already holds a value of the same opaque kind
+                            let mv = Model::lookup(&sess.model.top, name);
+                            let same = match mv {
+                                Some(mv) => sess.model_canon(&mv).ok() == Some(obs::canon_obj(&o)),
+                                None => false,
+                            };
+                            if !same {
+                                log.push(format!("{} => CANCELLED (cannot adopt {})", src, name));
+                                return RunEnd::Inconclusive("cancellation: a written variable is not adoptable".into());
+                            }
+                        }
+                    },
+                    Err(_) => {
+                        // not (or no longer) declared in the implementation
+                        if Model::lookup(&sess.model.top, name).is_some() {
+                            log.push(format!("{} => CANCELLED ({} vanished)", src, name));
+                            return RunEnd::Inconclusive("cancellation: variable undeclared".into());
+                        }
+                    }
+                }
+            }
+            match compare_state(sess, idx, &src) {
+                Ok(h) => {
+                    stats.state_hashes.push(h);
+                    log.push(format!("{} => CANCELLED #{:016x}", src, h));
+                }
+                Err(end) => {
+                    log.push(format!("{} => STATE MISMATCH AFTER CANCELLATION", src));
+                    return end;
+                }
+            }
+            if st.hidden_state {
+                // a closure-local cell may or may not have been written: the model cannot follow
+                return RunEnd::Inconclusive("cancellation with closure-local state".into());
+            }
+            continue;
+        }
+
         if st.mode == Mode::OutcomeOnly {
             match &impl_out {
                 Outcome::Value(_) => stats.values += 1,
@@ -658,12 +719,6 @@ fn execute_inner(
             Err(Ctl::Fuel) => return RunEnd::Inconclusive("model fuel".into()),
         };
 
-        if cancel_fired || impl_out == Outcome::Cancelled {
-            // F7: the model cannot know the internal step. Adopt the variables in the write set
-            // from the implementation (after a well-formedness check) and compare the rest.
-            stats.cancelled += 1;
-            return RunEnd::Inconclusive("cancellation adoption not implemented".into());
-        }
 
         match (&impl_out, &model_out) {
             (Outcome::Value(a), Outcome::Value(b)) => {
